@@ -130,7 +130,7 @@ def gen_U(rng, valid, for_fn):
                                   for _ in range(3)])
                     U = U + E
         else:
-            kind = rng.weighted([("stretch", 4), ("entry", 2), ("improper", 2), ("neg", 1),
+            kind = rng.weighted([("stretch", 3), ("shear", 3), ("entry", 2), ("improper", 2), ("neg", 1),
                                  ("scale", 1)])
             R = random_rotation(rng)
             if kind == "stretch":
@@ -138,6 +138,13 @@ def gen_U(rng, valid, for_fn):
                 Q = random_rotation(rng)
                 e = [rng.uniform(-s, s) for _ in range(3)]
                 e[rng.below(3)] = s if rng.chance(0.5) else -s
+                U = R.dot(np.eye(3) + Q.dot(np.diag(e)).dot(Q.T))
+            elif kind == "shear":
+                # volume preserving to first order: only the orthonormality test can catch it
+                sm = rng.loguniform(6e-4, 0.5)
+                Q = random_rotation(rng)
+                t = rng.uniform(-1.0, 1.0)
+                e = [sm, -sm * (1 + t) / 2, -sm * (1 - t) / 2]
                 U = R.dot(np.eye(3) + Q.dot(np.diag(e)).dot(Q.T))
             elif kind == "entry":
                 s = rng.loguniform(3e-3, 0.3)
